@@ -108,10 +108,12 @@ def small_automata(tier, rng, rep):
     rep.rule = ("every graph_dict on <= 2 states over {a,b} and sampled 3-state ones (parallel edges and self-loops included); lengths 0..4 (3 for three states); all of maxlen x with_words x "
                 "{default, every start_state, every end_state}; the memo dictionary reused across lengths; exact integer matrices; non-trivial = >= 2 edges")
     rep.bound = f"{len(cases)} automata"
-    for d in cases:
+    for ci, d in enumerate(cases):
         n = len(d)
-        inp = {"graph_dict": {str(k): v for k, v in d.items()}, "start": [0]}
-        rep.attempt("enumeration_runs", inp, lambda: check_enumeration(rep, d, [0], 4 if n < 3 else 3, inp))
+        # the automaton's default start state is not always the state named 0 (a falsy name)
+        st_ = [0] if n == 1 or ci % 3 else [n - 1]
+        inp = {"graph_dict": {str(k): v for k, v in d.items()}, "start": st_}
+        rep.attempt("enumeration_runs", inp, lambda: check_enumeration(rep, d, st_, 4 if n < 3 else 3, inp))
         rep.case(key=(repr(d),), nontrivial=sum(len(v) for v in d.values()) >= 2, sample=inp if rep.evaluations == 40 else None)
         if len(rep.failures) >= 3:
             return
